@@ -70,7 +70,7 @@ func relIndexOf(s string) int {
 	}
 	return verifIte(s[0] == 'r', 0, verifIte(s[0] == 's', 1, -1))
 }
-func dbShard(i int) uuid.UUID { var u uuid.UUID; u[0] = 0x55; u[14] = byte(i >> 8); u[15] = byte(i + 1); return u }
+func dbShard(i int) uuid.UUID { var u uuid.UUID; u[0] = 0x55; u[14] = byte((i + 1) >> 8); u[15] = byte(i + 1); return u }
 
 const dbObjs = 3
 
@@ -81,7 +81,7 @@ func dbShardIndex(u uuid.UUID) int {
 	if u[0] != 0x55 {
 		return -2
 	}
-	return int(u[14])<<8 + int(u[15]) - 1
+	return (int(u[14])<<8 | int(u[15])) - 1
 }
 
 func dbObjIndex(u uuid.UUID) int {
@@ -126,6 +126,8 @@ type dbState struct {
 	maps       []dbMapRow
 	ops        int  // terminal operations executed
 	failAt     int  // terminal operation that fails (0 = none)
+	retryable  bool // the injected failure is one after which popx.Transaction re-runs the callback
+	retried    bool
 	failed     int
 	mutating   int  // mutating statements executed
 	outsideTx  int  // statements issued while a transaction is open but not through it
@@ -648,6 +650,26 @@ func dbTransaction(ctx context.Context, c *pop.Connection, f func(context.Contex
 		db.rows = snapshot // rollback
 		db.maps = mapSnapshot
 	}
+	if err != nil && db.retryable && db.failed > 0 && !db.retried {
+		// popx.Transaction re-runs the callback after a retryable failure
+		// (CockroachDB serialization failure through crdb.ExecuteInTx, SQLite
+		// "database is locked" through pop's locker): rolled back, the same
+		// callback once more, this time without the fault
+		db.retried = true
+		db.failAt = 0
+		snapshot = dbCopyRows(db.rows)
+		mapSnapshot = append([]dbMapRow(nil), db.maps...)
+		tx2 := &pop.Connection{}
+		db.txOpen++
+		db.txConn = tx2
+		err = f(context.WithValue(ctx, dbTxKey{}, tx2), tx2)
+		db.txOpen--
+		db.txConn = nil
+		if err != nil {
+			db.rows = snapshot
+			db.maps = mapSnapshot
+		}
+	}
 	return err
 }
 
@@ -1039,4 +1061,56 @@ func newModelPersister(nid int) *Persister {
 	}
 	d := &dbDeps{log: &logrusx.Logger{}, tr: &otelx.Tracer{}, cfg: &config.Config{}}
 	return &Persister{conn: dbBase, d: d, nid: dbNID(nid)}
+}
+
+
+// dbQueryAllSummary replaces (*pop.Query).All in the large-table run only: the
+// subject-set expansion query is answered from its arguments by direct
+// comparisons instead of evaluating its SQL text row pair by row pair (the text
+// is checked on small symbolic tables by Lemma P; this run is about the Go
+// loop that pages through the result). Rows and arguments are concrete here.
+func dbQueryAllSummary(q *pop.Query, models interface{}) error {
+	dq := dbQueries[q]
+	out, ok := models.(*[]*subjectExpandedRelationTupleRow)
+	if dq.raw == nil || !ok || !strings.Contains(dq.raw.stmt, "AS found") {
+		return dbQueryAll(q, models)
+	}
+	if err := db.begin(dq.conn, "SELECT (summarised subject-set expansion)", false); err != nil {
+		return err
+	}
+	a := dq.raw.args
+	n := len(a)
+	limit := a[n-1].(int)
+	rel, _, _ := argVal(a[n-2], "rel")
+	obj, _, _ := argVal(a[n-3], "obj")
+	ns, _, _ := argVal(a[n-4], "ns")
+	after := dbShardIndex(a[n-5].(uuid.UUID))
+	nid, _, _ := argVal(a[n-6], "nid")
+	if n != 7 {
+		panic("verif db model: the summarised expansion query expects a subject-id subject (one subject argument)")
+	}
+	sid, _, _ := argVal(a[0], "obj")
+	got := 0
+	for i := after + 1; i < len(db.rows) && got < limit; i++ {
+		r := db.rows[i]
+		if !(r.present && r.nid == nid && r.ns == ns && r.obj == obj && r.rel == rel && r.isSet) {
+			continue
+		}
+		found := false
+		for j := range db.rows {
+			o := db.rows[j]
+			if o.present && o.nid == r.nid && o.ns == r.sns && o.obj == r.sobj && o.rel == r.srel && !o.isSet && o.sid == sid {
+				found = true
+				break
+			}
+		}
+		row := &subjectExpandedRelationTupleRow{Found: found}
+		row.ID = dbShard(i)
+		row.Namespace = dbNSName(r.sns)
+		row.Object = dbObj(r.sobj)
+		row.Relation = dbSetRelName(r.srel)
+		*out = append(*out, row)
+		got++
+	}
+	return nil
 }
